@@ -188,7 +188,7 @@ def run(ctx):
                         ctx.count('variants_with_pattern_straddling_boundary')
                 elif rnd.random() < 0.5:
                     env['LBZIP2_VERIF_IN_GRANUL'] = str(rnd.choice([64, 256, 1024, 4096, 65536]))
-                if len(data) / int(env.get('LBZIP2_VERIF_IN_GRANUL', 262144)) > 300 and 'straggler' in env.get('LBZIP2_VERIF_SCHED', ''):
+                if len(data) / int(env.get('LBZIP2_VERIF_IN_GRANUL', 262144)) > 300 and ('straggler' in env.get('LBZIP2_VERIF_SCHED', '') or 'gaps' in env.get('LBZIP2_VERIF_SCHED', '')):
                     env['LBZIP2_VERIF_SCHED'] = env['LBZIP2_VERIF_SCHED'].split(':')[0] + ':jitter'
                 if kind == 'flood' and j % 2 == 0:
                     # many candidates whose retrieve jobs are dropped mid-header: stresses the candidate table (finding F3)
